@@ -1,184 +1,10 @@
 // Adapter for specs/UtxoChain (C01, C02, C05, C09): replays model paths on a real in-process regtest node with real, signed
 // transactions. usage: utxochain replay <tests.ndjson> <universe.json> [fork]
 //   universe.json: {universe: [tx...], h0, basedt, base: [{v,h}...]} as printed by the specification (ASSUME VFRow(Universe)).
-#include <chainsim.h>
-#include <consensus/tx_check.h>
-#include <consensus/tx_verify.h>
+#include <utxoworld.h>
 using namespace vfh;
 
-namespace {
-UniValue g_uni;
-std::unique_ptr<ChainSim> g_pristine;
-struct Base {
-    std::vector<CTransactionRef> cbs;     // coinbase transaction of every base height (index = height)
-    uint256 tip_hash; int h0; int64_t t0; int64_t basedt;
-};
-Base g_base;
 
-std::unique_ptr<ChainSim> MakeBaseSim()
-{
-    SimOptions o;
-    auto sim = MakeSim(o);
-    const int h0 = g_uni["h0"].getInt<int>();
-    const int64_t basedt = g_uni["basedt"].getInt<int64_t>();
-    std::map<int, CAmount> coin_at;   // base height -> coinbase value
-    for (size_t i = 0; i < g_uni["base"].size(); ++i) coin_at[g_uni["base"][i]["h"].getInt<int>()] = g_uni["base"][i]["v"].getInt<int64_t>();
-    const int64_t g = Params().GenesisBlock().nTime;
-    SetMockTime(g + (int64_t)h0 * basedt + 100000);   // all block times of the behaviour stay in the past
-    g_base = Base{}; g_base.h0 = h0; g_base.basedt = basedt;
-    g_base.cbs.push_back(nullptr);
-    uint256 prev = Params().GenesisBlock().GetHash();
-    for (int h = 1; h <= h0; ++h) {
-        ChainSim::BlockSpec s; s.prev = prev; s.height = h; s.time = g + (int64_t)h * basedt; s.extra_nonce = 7;
-        s.cb_value = coin_at.count(h) ? coin_at[h] : 0;
-        auto b = sim->BuildBlock(s);
-        auto [r, nb] = sim->SubmitBlock(b, true);
-        if (!r || sim->Tip()->GetBlockHash() != b->GetHash()) throw std::runtime_error("base chain block rejected");
-        g_base.cbs.push_back(b->vtx[0]);
-        prev = b->GetHash();
-    }
-    g_base.tip_hash = prev; g_base.t0 = g + (int64_t)h0 * basedt;
-    return sim;
-}
-
-struct Blk { std::shared_ptr<CBlock> block; uint256 hash; int height; int64_t time; };
-
-struct World {
-    std::unique_ptr<ChainSim> sim;
-    std::vector<Blk> blks;                 // index = model block id, [0] = base tip
-    std::map<uint256, int> ids;
-    std::vector<CTransactionRef> txu;      // index = model tx id (1-based)
-    std::vector<CAmount> fee;              // fee of each universe tx if all its inputs are known, else 0
-    std::map<std::pair<int, int>, COutPoint> ops;    // model outpoint -> real outpoint
-    std::map<std::pair<int, int>, CTxOut> outs;      // model outpoint -> real output (for signing / values)
-
-    World()
-    {
-        sim = g_pristine ? std::move(g_pristine) : MakeBaseSim();
-        blks.push_back({nullptr, g_base.tip_hash, g_base.h0, g_base.t0});
-        ids[g_base.tip_hash] = 0;
-        for (size_t i = 0; i < g_uni["base"].size(); ++i) {
-            const auto& cb = g_base.cbs.at(g_uni["base"][i]["h"].getInt<int>());
-            ops[{0, (int)i + 1}] = COutPoint(cb->GetHash(), 0);
-            outs[{0, (int)i + 1}] = cb->vout[0];
-        }
-        ops[{99, 1}] = COutPoint(Txid::FromUint256(uint256{0x99}), 3);
-        BuildUniverse();
-    }
-    static uint32_t SeqOf(const UniValue& sq)
-    {
-        const std::string k = sq["kind"].get_str();
-        const uint32_t v = (uint32_t)sq["v"].getInt<int>();
-        if (k == "final") return CTxIn::SEQUENCE_FINAL;
-        if (k == "disabled") return CTxIn::SEQUENCE_LOCKTIME_DISABLE_FLAG | 5;
-        if (k == "height") return v;
-        if (k == "time") return CTxIn::SEQUENCE_LOCKTIME_TYPE_FLAG | v;
-        throw std::runtime_error("bad seq kind");
-    }
-    void BuildUniverse()
-    {
-        const UniValue& U = g_uni["universe"];
-        txu.resize(U.size() + 1); fee.assign(U.size() + 1, 0);
-        for (size_t t = 1; t <= U.size(); ++t) {
-            const UniValue& T = U[t - 1];
-            CMutableTransaction m;
-            m.version = T["ver"].getInt<int>();
-            const std::string lk = T["lock"]["kind"].get_str();
-            m.nLockTime = lk == "none" ? 0 : lk == "height" ? (uint32_t)T["lock"]["v"].getInt<int>() : (uint32_t)(g_base.t0 + T["lock"]["v"].getInt<int64_t>());
-            bool all_known = true; CAmount in = 0, out = 0;
-            for (size_t j = 0; j < T["ins"].size(); ++j) {
-                const std::pair<int, int> key{T["ins"][j]["op"][0].getInt<int>(), T["ins"][j]["op"][1].getInt<int>()};
-                CTxIn ti(ops.at(key)); ti.nSequence = SeqOf(T["ins"][j]["seq"]);
-                m.vin.push_back(ti);
-                if (outs.count(key)) in += outs[key].nValue; else all_known = false;
-            }
-            for (size_t i = 0; i < T["outs"].size(); ++i) {
-                const std::string cls = T["outs"][i]["cls"].get_str();
-                CScript spk;
-                if (cls == "true") spk = CScript() << OP_TRUE;
-                else if (cls == "opret") spk = CScript() << OP_RETURN << std::vector<unsigned char>(20, (unsigned char)t);
-                else if (cls == "fail") spk = CScript() << OP_1 << OP_VERIFY << OP_0;
-                else throw std::runtime_error("bad script class");
-                m.vout.emplace_back(T["outs"][i]["v"].getInt<int64_t>(), spk);
-                out += T["outs"][i]["v"].getInt<int64_t>();
-            }
-            // distinguish otherwise identical transactions and stay away from the 64-byte ambiguity
-            m.vout.emplace_back(0, CScript() << OP_RETURN << std::vector<unsigned char>(30, (unsigned char)(0xA0 + t)));
-            for (size_t j = 0; j < m.vin.size(); ++j) {
-                const std::pair<int, int> key{T["ins"][j]["op"][0].getInt<int>(), T["ins"][j]["op"][1].getInt<int>()};
-                if (key.first == 0) sim->SignP2PK(m, j, outs.at(key));       // base coins are P2PK
-            }
-            txu[t] = MakeTransactionRef(m);
-            fee[t] = all_known ? in - out : 0;
-            for (size_t i = 0; i < T["outs"].size(); ++i) {
-                ops[{(int)t, (int)i + 1}] = COutPoint(txu[t]->GetHash(), i);
-                outs[{(int)t, (int)i + 1}] = txu[t]->vout[i];
-            }
-        }
-    }
-    UniValue Apply(const UniValue& a)
-    {
-        const std::string op = a[0].get_str();
-        UniValue res(UniValue::VARR);
-        if (op == "mine") {
-            const int id = blks.size();
-            const Blk p = blks.at(a[1].getInt<int>());
-            ChainSim::BlockSpec s; s.prev = p.hash; s.height = p.height + 1; s.time = p.time + a[4].getInt<int64_t>(); s.extra_nonce = id;
-            CAmount fees = 0;
-            for (size_t i = 0; i < a[2].size(); ++i) { const int t = a[2][i].getInt<int>(); s.txs.push_back(txu.at(t)); fees += std::max<CAmount>(fee.at(t), 0); }
-            const std::string cb = a[3].get_str();
-            const CAmount limit = GetBlockSubsidy(s.height, sim->consensus()) + fees;
-            s.cb_value = cb == "zero" ? 0 : cb == "max" ? limit : limit + 1;
-            auto b = sim->BuildBlock(s);
-            blks.push_back({b, b->GetHash(), s.height, (int64_t)s.time});
-            ids[b->GetHash()] = id;
-            auto [r, nb] = sim->SubmitBlock(b, true);
-            std::string why = sim->Reason(b->GetHash());
-            if (why.empty()) {
-                LOCK(cs_main);
-                const CBlockIndex* pi = sim->cm().m_blockman.LookupBlockIndex(b->GetHash());
-                why = (pi && sim->cm().ActiveChain().Contains(*pi)) ? "connected" : (pi && (pi->nStatus & BLOCK_HAVE_DATA)) ? "stored" : "dropped";
-            }
-            if (why.rfind("mandatory-script-verify-flag-failed", 0) == 0 || why.rfind("block-script-verify-flag-failed", 0) == 0) why = "script-failed";
-            res.push_back(why);
-        } else if (op == "invalidate") { sim->Invalidate(blks.at(a[1].getInt<int>()).hash); res.push_back("none"); }
-        else if (op == "reconsider") { sim->Reconsider(blks.at(a[1].getInt<int>()).hash); res.push_back("none"); }
-        else if (op == "flush") { BlockValidationState st; sim->cm().ActiveChainstate().ForceFlushStateToDisk(); res.push_back("none"); }
-        else throw std::runtime_error("unknown op " + op);
-        return res;
-    }
-    UniValue Project()
-    {
-        LOCK(cs_main);
-        auto& cm = sim->cm();
-        const int tip = ids.at(cm.ActiveChain().Tip()->GetBlockHash());
-        std::set<int> stored, failed;
-        for (size_t i = 0; i < blks.size(); ++i) {
-            const CBlockIndex* pi = cm.m_blockman.LookupBlockIndex(blks[i].hash);
-            if (!pi) continue;
-            if (pi->nStatus & BLOCK_HAVE_DATA) stored.insert(i);
-            if (pi->nStatus & BLOCK_FAILED_VALID) failed.insert(i);
-        }
-        // the UTXO set restricted to the universe: base coins, every universe output, every model block's coinbase output
-        std::vector<std::pair<std::pair<int, int>, COutPoint>> cand(ops.begin(), ops.end());
-        for (size_t b = 1; b < blks.size(); ++b) cand.push_back({{-(int)b, 1}, COutPoint(blks[b].block->vtx[0]->GetHash(), 0)});
-        auto& view = cm.ActiveChainstate().CoinsTip();
-        std::map<std::pair<int, int>, UniValue> have;
-        for (auto& [key, op] : cand) {
-            auto c = view.GetCoin(op);
-            if (!c) continue;
-            const CAmount S = 50 * COIN;
-            const CAmount v = c->out.nValue;
-            have[key] = Obj({{"t", key.first}, {"i", key.second}, {"k", (int)(v >= S ? v / S : 0)}, {"s", (int64_t)(v >= S ? v % S : v)},
-                             {"h", (int)c->nHeight}, {"cb", c->IsCoinBase()}});
-        }
-        UniValue ul(UniValue::VARR);
-        for (auto& [k, v] : have) ul.push_back(v);
-        UniValue obs = Obj({{"tip", tip}, {"stored", SortedIntArr(stored)}, {"failed", SortedIntArr(failed)}, {"utxo", ul}});
-        return Obj({{"obs", obs}});
-    }
-};
-} // namespace
 
 int main(int argc, char** argv)
 {
